@@ -148,7 +148,10 @@ Definition run_kill (x : sx) : sx :=
   | _ => err "bad case"
   end.
 
-(* leg coldstart: case ( k after_kill ).  No server on a fresh port, k real clients released together.  Which
+(* leg coldstart: case ( k after_kill [addr] ), addr = tcp (default) | uds_plain | uds_symlink | uds_dotdot | uds_dot |
+   uds_abstract: the server address is the TCP port or a Unix socket whose path is spelled canonically or not.  The
+   `started` row uses what the model's server reports for that address (no `wrong_addr` row exists: the model's
+   server never reports another address).  No server on a fresh address, k real clients released together.  Which
    client's server wins the port is up to the scheduler, so the model's output is its decision TABLE: for every
    start-up class a client can report (existing = first connect worked, started = its own server reported Ok,
    addr_in_use = its own server lost the port) the outcome `compile_process` predicts when a listener is there and
@@ -160,12 +163,21 @@ Definition enc_process (p : process_outcome) : list sx :=
                                | SccacheError _ => sym "error" end; SN (exit_code o 0) ]
   end.
 
+Definition dec_saddr (k : sx) : saddr :=
+  if is_sym "uds_plain" k then UdsPath (bs "/d/plain/s")
+  else if is_sym "uds_symlink" k then UdsPath (bs "/d/link/s")
+  else if is_sym "uds_dotdot" k then UdsPath (bs "/d/a/../b/s")
+  else if is_sym "uds_dot" k then UdsPath (bs "/d/c/.//s")
+  else if is_sym "uds_abstract" k then UdsAbstract (bs "vh")
+  else TcpPort 1.
+
 Definition run_coldstart (x : sx) : sx :=
+  let a := dec_saddr (nth 2 (get_L x) (SN 0)) in
   let bytes := frame (encode_compile_response CompileStarted) ++ frame (encode_finished fin0) in
   let row name first rep later :=
       SL (sym name :: enc_process (compile_process opq0 false first rep later bytes Eof)) in
   SL [ row "existing" AOk SSpawnErr [];
-       row "started" ARefused (SOk true) [ARefused; AOk];
+       row "started" ARefused (report_of_started_server a) [ARefused; AOk];
        row "addr_in_use" ARefused SAddrInUse [ARefused; AOk];
        row "timed_out" ARefused STimedOut [AOk];
        row "start_err" ARefused SErr [AOk];
